@@ -603,16 +603,14 @@ Fixpoint find_meth (n : string) (ms : list meth) : option meth :=
   | m :: r => if String.eqb n (m_name m) then Some m else find_meth n r
   end.
 
-Fixpoint all_sub (a b : list ty) : bool :=
-  match a, b with
-  | [], [] => true
-  | x :: r, y :: s => sub x y && all_sub r s
-  | _, _ => false
-  end.
+(* the method re-typed with the argument types a call site supplies (the annotations of logger.py are not
+   believed here: the body is checked again under the types inferred at the site) *)
+Definition retype (m : meth) (tys : list ty) : meth :=
+  mkMeth (m_name m) (combine (map fst (m_params m)) tys) (m_body m).
 
-Definition site_ok (ms : list meth) (s : site) : bool :=
+Definition site_ok (T : tabs) (ms : list meth) (s : site) : bool :=
   match find_meth (s_meth s) ms with
-  | Some m => all_sub (s_args s) (map snd (m_params m))
+  | Some m => (length (s_args s) =? length (m_params m))%nat && meth_ok T (retype m (s_args s))
   | None => false
   end.
 
